@@ -582,6 +582,31 @@ def r14_dedup_adder(cx):
         o.key = "R14/" + o.key.split("/", 1)[1]
 
 
+def r15_pack_table_covers_every_id(cx):
+    """a content address names its pack by a 16-bit id, every value of which is admissible: the table of packs the
+    container builds at open time has `max id + 1` slots computed in usize -- no arithmetic on the 16-bit id itself
+    (65535 + 1 overflows: debug builds panic at open, release builds build an empty table and lose the contents)"""
+    F = cx.F
+    f = F.one(impl_self="reader::jubako::Container", item="new_with_locator", closure=False)
+    b = F.deep_body(f, only=r"reader::jubako::Container::")
+    rs = b.calls(r"Vec::<.*OnceLock<.*ContentPack>>::resize_with::<|Vec::<.*ContentPack.*>::(resize|resize_with|with_capacity)")
+    if not rs:
+        raise AnchorLost("Container::new_with_locator: the pack table is no longer sized with resize_with")
+    narrow = []
+    for i, blk in enumerate(b.blocks):
+        if blk.get("cleanup"):
+            continue
+        for st in blk["s"]:
+            if st["k"] == "assign" and st["rv"]["k"] == "bin" and st["rv"]["op"] in ("Add", "AddWithOverflow", "Mul", "MulWithOverflow", "Shl") and st["rv"].get("a_ty") in ("u16", "u8"):
+                o = b.origins(st["rv"]["a"]) | b.origins(st["rv"]["b"])
+                if any(x[0] == "call" and call_is(b.term(x[1]), r"ManifestPack::max_id$|PackId::into_u16$") for x in o) or ("field", "max_id") in o:
+                    narrow.append(st.get("ln"))
+    lo = b.origins(rs[0][1]["args"][1])
+    from_max = any(x[0] == "call" and call_is(b.term(x[1]), r"ManifestPack::max_id$") for x in lo) or ("field", "max_id") in lo
+    cx.ob("R15", "R15/pack-table-size-in-usize", from_max and not narrow, f,
+          "the pack table has max_id + 1 slots with the addition done after widening to usize (16-bit additions on the id at lines %s)" % narrow, ln=rs[0][1].get("ln"))
+
+
 def r10_witness(cx):
     """type-level: ContentPackCreator::finalize consumes the creator (no insertion after finalisation)"""
     import witness
@@ -611,4 +636,5 @@ RULES = [
     ("R12", r12_address_resolution, 3),
     ("R13", r13_creator_addresses, 3),
     ("R14", r14_dedup_adder, 3),
+    ("R15", r15_pack_table_covers_every_id, 1),
 ]
